@@ -28,7 +28,7 @@ for pid, c in sorted(CLAIMED.items()):
         "evidence_file": f"/verif/evidence/{pid}.json",
         "replay_cmd_template": f"./check {pid} --replay {{path}}",
         "engine": "contracts",
-        "level_claimed": {"category": "proof", "text": c["text"], "design_ref": c.get("design_ref", "DESIGN.md §5")},
+        "level_claimed": {"category": c.get("category", "proof"), "text": c["text"], "design_ref": c.get("design_ref", "DESIGN.md §5")},
         "level_note": c["note"] + " Units: " + ", ".join(f"{n} ({u['backend']})" for n, u in us) + ".",
         "technique": c["technique"],
     })
